@@ -2,6 +2,7 @@
 import math
 import itertools
 import numpy as np
+from hypothesis import strategies as st
 
 from ..core import SubCheck
 from .. import ref
@@ -219,6 +220,52 @@ def cases_tableaux(tier):
     return out
 
 
+@st.composite
+def _strat_history(draw, tier='quick'):
+    ops = draw(st.lists(st.tuples(st.sampled_from(['count', 'full', 'diagram', 'hook', 'tableaux']), st.integers(1, 30)), min_size=2, max_size=8))
+    return dict(ops=[list(x) for x in ops])
+
+
+def run_history(ctx, case):
+    """the counting functions are memoised: any order of calls must give the same answers"""
+    g = _g()
+    ops = case['ops']
+    Ns = [n for _, n in ops]
+    dec = any(a > b for a, b in zip(Ns, Ns[1:]))
+    ctx.note(klass='history', desc=[[k for k, _ in ops], dec], nontrivial=dec, labels=['decreasing' if dec else 'monotone'])
+    # fresh memo state for every history: the lru caches are the only state
+    from numqi.group import _symmetric as S
+    for name in dir(S):
+        fn = getattr(S, name)
+        if hasattr(fn, 'cache_clear'):
+            fn.cache_clear()
+    for name in dir(S):
+        v = getattr(S, name)
+        if isinstance(v, dict) and name.startswith('_') and not name.startswith('__'):
+            v.clear()  # module-level memo tables, if any
+    for kind, N in ops:
+        if kind == 'count':
+            ctx.require(int(g.get_sym_group_num_irrep(N)) == ref.num_partitions(N), 'number of irreps of S_N = p(N)', f'N={N} after {ops}')
+        elif kind == 'full':
+            c, z = g.get_sym_group_num_irrep(N, return_full=True)
+            ctx.require(int(c) == ref.num_partitions(N) and np.asarray(z).shape == (N + 1, N + 1) and int(np.asarray(z)[N, N]) == ref.num_partitions(N),
+                        'return_full count', f'N={N}')
+        elif kind == 'diagram':
+            N = min(N, 14)
+            Y = np.asarray(g.get_sym_group_young_diagram(N))
+            got = [tuple(int(v) for v in row if v > 0) for row in Y]
+            ctx.require(len(set(got)) == len(got) and set(got) == set(ref.partitions(N)), 'diagram list = set of partitions of N', f'N={N}')
+        elif kind == 'hook':
+            N = min(N, 16)
+            p = ref.partitions(N)[(N * 7) % ref.num_partitions(N)]
+            ctx.require(int(g.get_hook_length(*p)) == ref.hook_number(p), 'get_hook_length = hook formula', f'{p}')
+        else:
+            N = min(N, 7)
+            p = ref.partitions(N)[(N * 5) % ref.num_partitions(N)]
+            T = np.asarray(g.get_all_young_tableaux(p))
+            ctx.require(T.shape[0] == ref.hook_number(p) and len({t.tobytes() for t in T}) == T.shape[0], 'number of tableaux = hook-length number', f'{p}')
+
+
 def run_hooks(ctx, case):
     g = _g()
     N = case['N']
@@ -237,6 +284,8 @@ def cases_hooks(tier):
 
 
 SUBCHECKS = [
+    SubCheck('history', run_history, strategy=_strat_history, examples=(400, 3000), floors={'decreasing': 0.4},
+             doc='memoised counting functions called in arbitrary order (histories), each answer against the independent recurrence'),
     SubCheck('hooks', run_hooks, cases=cases_hooks, shards=(4, 16), doc='hook-length numbers of every partition of N<=18 (N<=26 thorough), no enumeration'),
     SubCheck('tables', run_tables, cases=cases_tables, shards=(8, 16), doc='group axioms, left-regular form, irreducible blocks of every constructible table'),
     SubCheck('partitions', run_partitions, cases=cases_partitions, shards=(2, 4), doc='p(N) for N<=60, full table, diagram lists'),
